@@ -334,6 +334,13 @@ def run_property(pid, tier='quick', seed=0, jobs=16, verbose=False):
         for k, v in r['notes'].items():
             notes.setdefault(k, set()).update(v)
     level = 'proof' if (n_obl == n_proved and code == 0) else 'other'
+    try:
+        from contracts.claims import CLAIMS
+        if CLAIMS.get(pid, {}).get('category') == 'other':
+            # the claim itself says the property as a whole rests on more than the proved part
+            level = 'other'
+    except ImportError:
+        pass
     cov = dict(
         obligations=n_obl, discharged=n_proved,
         checker_cmd=f'bin/vcheck {pid} --tier {tier}',
@@ -357,7 +364,9 @@ def run_property(pid, tier='quick', seed=0, jobs=16, verbose=False):
         undecided=undecided[:20], errors=errors[:10],
     )
     if level == 'other':
-        cov['explanation'] = (
+        cov['explanation'] = (f'all {n_obl} obligations discharged, but part of the property is only covered by '
+                              'a bounded stand-in (coverage.bounded_standins_not_proofs), see the claim text'
+                              ) if (n_obl == n_proved and code == 0) else (
             f'{n_proved} of {n_obl} obligations discharged; the rest are '
             + ('listed known findings (refuted and replayed on the real code); ' if known_lines else '')
             + ('violations; ' if violations else '') + ('undecided; ' if undecided else '')
